@@ -4,6 +4,7 @@ import (
 	"bufio"
 	"context"
 	"fmt"
+	"sort"
 	"strconv"
 	"strings"
 	"time"
@@ -160,8 +161,59 @@ func driveTrig(toks []string) string {
 	return strings.Join(polls, " ; ")
 }
 
+// driveSgb: the real SimpleGroupBy (what the planner builds when there is no TRIGGER clause); its rows come out in
+// hash-map order and are sorted by key here (the model lists them in key order).
+func driveSgb(toks []string) string {
+	if len(toks) < 3 || toks[2] != "::" {
+		return "bad-op"
+	}
+	nk, err := strconv.Atoi(toks[0][1:])
+	if err != nil {
+		return "bad-op"
+	}
+	letters := toks[1][1:]
+	if letters == "-" {
+		letters = ""
+	}
+	msgs := ParseMsgs(toks[3:])
+	keyExprs := make([]execution.Expression, nk)
+	for i := range keyExprs {
+		keyExprs[i] = execution.NewVariable(0, i)
+	}
+	protos := make([]func() nodes.Aggregate, len(letters))
+	aggExprs := make([]execution.Expression, len(letters))
+	for i := range protos {
+		protos[i] = aggProto(letters[i])
+		aggExprs[i] = execution.NewVariable(0, nk+i)
+	}
+	node := nodes.NewSimpleGroupBy(protos, aggExprs, keyExprs, &ScriptNode{Msgs: msgs, FailAt: -1})
+	ctx := execution.ExecutionContext{Context: context.Background(), VariableContext: nil}
+	out, runErr := Collect(ctx, node)
+	if runErr != nil {
+		return ErrClass(runErr)
+	}
+	var wms, rows []Msg
+	for _, m := range out {
+		if m.IsWM {
+			wms = append(wms, m)
+		} else {
+			rows = append(rows, m)
+		}
+	}
+	sort.SliceStable(rows, func(i, j int) bool {
+		return execution.CompareValueSlices(rows[i].Rec.Values[:nk], rows[j].Rec.Values[:nk])
+	})
+	out = append(wms, rows...)
+	if len(out) == 0 {
+		return "ok"
+	}
+	return "ok " + EncodeMsgs(out)
+}
+
 func driveTrigProps(toks []string) string {
 	switch toks[0] {
+	case "sgb":
+		return driveSgb(toks[1:])
 	case "gb":
 		return driveGb(toks[1:])
 	case "trig":
@@ -428,6 +480,22 @@ func genGbOps(g *Gen, tier string, w *bufio.Writer, salt int, small bool) {
 			a = "A-"
 		}
 		fmt.Fprintf(w, "gb %s K2 %s %s :: %s\n", c, a, ket, randStream(g, 1+g.Intn(randLen), letters, withEt, g.Chance(1, 10)))
+	}
+	// the plain batch node (SimpleGroupBy) on the same kind of streams
+	if !small {
+		for n := 0; n <= full; n++ {
+			enumStreams(n, "c", true, func(s string) {
+				fmt.Fprintf(w, "sgb K2 Ac :: %s\n", s)
+			})
+		}
+		for i := 0; i < nrand/3; i++ {
+			letters := Pick(g, []string{"c", "cs", "s", "sc", ""})
+			a := "A" + letters
+			if letters == "" {
+				a = "A-"
+			}
+			fmt.Fprintf(w, "sgb K2 %s :: %s\n", a, randStream(g, 1+g.Intn(randLen), letters, g.Chance(3, 4), g.Chance(1, 10)))
+		}
 	}
 	// configurations on which the Go code panics by construction (time index out of range)
 	fmt.Fprintf(w, "gb TW2 K2 Ac E0 :: %s\n", uRecord(0, 0, "c", false, true))
